@@ -118,7 +118,8 @@ AllocateX(D, st, extra) ==
     LET tids == {d.tid : d \in D}
         mades == UNION {d.made : d \in D}
         D2tx(d) == [ver |-> d.ver, st |-> st, ins |-> d.ins, inv |-> SumV(d.ins), out |-> d.out,
-                    fee |-> d.fee, made |-> d.made, exp |-> now + cfg.rt, bl |-> d.bl]
+                    fee |-> d.fee, made |-> d.made, exp |-> now + cfg.rt, bl |-> d.bl,
+                    rec |-> (st = "pool")]      \* SplitUTXO broadcasts (and records) its transaction itself
     IN /\ Cardinality(tids) = Cardinality(D)
        /\ \A d \in D : d.bl = lag                                  \* the basis handed back is the WALLET's tip
        /\ \A d \in D : d.tid >= 1 /\ d.tid \notin TxIds /\ d.fee >= 0 /\ d.out >= 0 /\ d.ins # {}
@@ -346,18 +347,26 @@ Avail(t) == \A i \in txs[t].ins :
 CrossVer(t) == \E i \in txs[t].ins : i \notin DOMAIN owned /\ i \in Ids(MadeAll) /\ MakerVer(i) # txs[t].ver
 CanBroadcast(t) == t \in TxIds /\ txs[t].st = "out" /\ (Live(t) \/ txs[t].ins \cap LockedNow = {})
 
-BcastAcc(t) ==
+\* pre: the caller (or a peer's relay) had put the set into the pool already, e.g. to validate it
+\* with AddV2PoolTransactions, before handing it to the wallet's BroadcastV2TransactionSet.  "Known
+\* to the (volatile) pool" is not "recorded in the wallet's store": the broadcast records the set
+\* (rec) in BOTH cases, which is what lets Restart re-load it into a fresh pool.  A v1 transaction
+\* has no broadcast call in the wallet; it only ever lives in the pool (rec stays FALSE).
+BcastLabel(t, pre) == [op |-> "Bcast", t |-> t, pre |-> pre]
+BcastAcc(t, pre) ==
     /\ CanBroadcast(t)
+    /\ pre => txs[t].ver = 2
     /\ Avail(t) /\ ~CrossVer(t)
-    /\ txs' = [txs EXCEPT ![t].st = "pool"]
-    /\ act' = [op |-> "Bcast", t |-> t]
+    /\ txs' = [txs EXCEPT ![t].st = "pool", ![t].rec = (txs[t].ver = 2)]
+    /\ act' = BcastLabel(t, pre)
     /\ reply' = [r |-> "acc", d |-> {}, dup |-> 0]
     /\ UNCHANGED <<lag, cfg, owned, locked, now, nextId, nextTx>>
 
-BcastRej(t) ==
+BcastRej(t, pre) ==
     /\ CanBroadcast(t)
+    /\ pre => txs[t].ver = 2
     /\ ~(Avail(t) /\ ~CrossVer(t))
-    /\ act' = [op |-> "Bcast", t |-> t]
+    /\ act' = BcastLabel(t, pre)
     /\ reply' = [r |-> "rej", d |-> {}, dup |-> 0]
     /\ UNCHANGED svars
 
@@ -429,7 +438,7 @@ Restart ==
     /\ Rlsing = {} /\ lag = 0
     /\ locked' = <<>>
     /\ txs' = [t \in TxIds |->
-                 IF txs[t].st = "pool" /\ txs[t].ver = 2 THEN txs[t]
+                 IF txs[t].st = "pool" /\ txs[t].rec THEN txs[t]      \* the recorded sets are re-loaded
                  ELSE [txs[t] EXCEPT !.st = "out", !.exp = 0]]
     /\ act' = [op |-> "Restart"]
     /\ reply' = NoReply
@@ -515,7 +524,7 @@ Next ==
     \/ NextFund
     \/ NextRedist
     \/ NextSplit
-    \/ \E t \in TxIds : Release(t) \/ BcastAcc(t) \/ BcastRej(t)
+    \/ \E t \in TxIds : Release(t) \/ \E pre \in BOOLEAN : BcastAcc(t, pre) \/ BcastRej(t, pre)
     \/ Tick
     \/ Mine
     \/ \E x \in Rewards : Reward(x, nextId)
@@ -532,7 +541,7 @@ Bound == nextId <= MaxId + 1 /\ nextTx <= MaxTx + 1 /\ now <= MaxNow
 (* Invariants and action properties (C07) *)
 
 TxRec == [ver : {1, 2}, st : {"out", "rlsing", "pool"}, ins : SUBSET Nat, inv : Nat, out : Nat,
-          fee : Nat, made : SUBSET [id : Nat, v : Nat], exp : Nat, bl : Nat]
+          fee : Nat, made : SUBSET [id : Nat, v : Nat], exp : Nat, bl : Nat, rec : BOOLEAN]
 TypeOK ==
     /\ cfg \in [dt : Nat, mi : Nat, md : Nat, rt : Nat]
     /\ DOMAIN owned \subseteq Nat /\ \A i \in DOMAIN owned : owned[i] \in [v : Nat, m : 0..Delay]
@@ -560,6 +569,9 @@ LiveValid ==
 PoolValid ==
     /\ \A t1, t2 \in PoolTx : t1 # t2 => txs[t1].ins \cap txs[t2].ins = {}
     /\ \A t \in PoolTx : txs[t].ins \subseteq DOMAIN owned \cup Ids(MadeAll)
+
+\* every v2 transaction in the pool is recorded in the wallet's store (so a restart re-loads it)
+PoolRecorded == \A t \in PoolTx : txs[t].rec = (txs[t].ver = 2)
 
 \* every reservation belongs to a request the model still knows: none leaks
 NoOrphanLocks ==
